@@ -88,6 +88,8 @@ func classifyAtom(v ssa.Value, pol bool) (atom, bool) {
 		a.Kind = "to=="
 	case isCallValueTo(x, "move.(Move).Promo"):
 		a.Kind = "promo=="
+	case isFieldLoad(x, "Board.STM"):
+		a.Kind = "stm=="
 	case isPieceAt(x, "move.(Move).From"):
 		a.Kind = "moved=="
 	case pieceAtCaptureSq(x) != nil:
